@@ -115,6 +115,7 @@ type frame struct {
 	top      bool
 	siteOK   map[*ssa.Alloc]bool
 	lastRange string
+	evalBlock *ssa.BasicBlock // program point at which contract expressions are being evaluated
 	noEsc    bool // suppress the "escaped" assumption (loop-carried locals)
 }
 
@@ -395,6 +396,7 @@ func (e *Engine) genFunction(fn *ssa.Function) (fc *fnCtx, err error) {
 	fr.run(st, args)
 	// returns
 	for _, rr := range fr.retStates {
+		fr.evalBlock = rr.instr.Block()
 		env := fr.specEnv(rr.st, fr.old)
 		fr.bindResults(env, rr.results)
 		for k, v := range fr.localsAt(rr.instr.Block()) {
@@ -495,7 +497,7 @@ func (fr *frame) typeInv(st *state, v, srt string, t types.Type, isParam bool) {
 	case "Str":
 		sc.assume(implies(st.reach, fmt.Sprintf("(and (<= 0 (slo %s)) (<= (slo %s) (shi %s)))", v, v, v)))
 	case "Slice":
-		sc.assume(implies(st.reach, fmt.Sprintf("(and (<= 0 (soff %s)) (<= 0 (sllen %s)) (<= 0 (sref %s)) (< (sref %s) %s) (=> (= (sref %s) 0) (= (sllen %s) 0)))", v, v, v, v, st.alloc, v, v)))
+		sc.assume(implies(st.reach, fmt.Sprintf("(and (<= 0 (soff %s)) (<= 0 (sllen %s)) (<= 0 (sref %s)) (< (sref %s) %s) (=> (= (sref %s) 0) (= (sllen %s) 0)) (<= (sllen %s) 1099511627776))", v, v, v, v, st.alloc, v, v, v)))
 		// a slice obtained from a parameter, the heap or a call is reachable by others
 		if !fr.noEsc {
 			sc.assume(implies(st.reach, app("select", fr.fc.hget(st, "ESC"), app("sref", v))))
@@ -579,8 +581,18 @@ func (fr *frame) prepare() {
 	for h := range fr.loops {
 		hs = append(hs, h)
 	}
+	lpos := map[*ssa.BasicBlock]token.Pos{}
+	for _, h := range hs {
+		best := token.NoPos
+		for b := range fr.loops[h].blocks {
+			if p := loopPos(b); p.IsValid() && (best == token.NoPos || p < best) {
+				best = p
+			}
+		}
+		lpos[h] = best
+	}
 	sort.Slice(hs, func(i, j int) bool {
-		pi, pj := loopPos(hs[i]), loopPos(hs[j])
+		pi, pj := lpos[hs[i]], lpos[hs[j]]
 		if pi != pj {
 			return pi < pj
 		}
@@ -761,32 +773,7 @@ func (fr *frame) doPhis(b *ssa.BasicBlock, cur *state, header bool) {
 func (fr *frame) loopVars(h *ssa.BasicBlock) map[string]TV {
 	vars := map[string]TV{}
 	u := fr.fc.e.u
-	// unique DebugRef'd locals whose defining block dominates h
-	cands := map[string]ssa.Value{}
-	multi := map[string]bool{}
-	for _, b := range fr.fn.Blocks {
-		for _, in := range b.Instrs {
-			if dr, ok := in.(*ssa.DebugRef); ok && !dr.IsAddr {
-				id, ok := dr.Expr.(*ast.Ident)
-				if !ok {
-					continue
-				}
-				if prev, ok := cands[id.Name]; ok && prev != dr.X {
-					multi[id.Name] = true
-				}
-				cands[id.Name] = dr.X
-			}
-		}
-	}
-	for n, v := range cands {
-		if multi[n] {
-			continue
-		}
-		if in, ok := v.(ssa.Instruction); ok {
-			if !in.Block().Dominates(h) || in.Block() == h {
-				continue
-			}
-		}
+	for n, v := range fr.namedAt(h, true) {
 		if t, ok := fr.regs[v]; ok {
 			vars[n] = TV{T: t, Sort: u.sortOf(v.Type()), Typ: v.Type()}
 		}
@@ -817,6 +804,7 @@ func (fr *frame) loopVars(h *ssa.BasicBlock) map[string]TV {
 func (fr *frame) addrLocal(st *state, name string) (TV, bool) {
 	u := fr.fc.e.u
 	var found *ssa.Alloc
+	var cands []*ssa.Alloc
 	for _, b := range fr.fn.Blocks {
 		for _, in := range b.Instrs {
 			dr, ok := in.(*ssa.DebugRef)
@@ -831,10 +819,28 @@ func (fr *frame) addrLocal(st *state, name string) (TV, bool) {
 			if !ok {
 				continue
 			}
-			if found != nil && found != al {
-				return TV{}, false
+			dup := false
+			for _, c := range cands {
+				if c == al {
+					dup = true
+				}
 			}
-			found = al
+			if !dup {
+				cands = append(cands, al)
+			}
+		}
+	}
+	if len(cands) == 1 {
+		found = cands[0]
+	} else if len(cands) > 1 && fr.evalBlock != nil {
+		// several locals of that name: the one whose allocation dominates the point of evaluation
+		for _, c := range cands {
+			if c.Block().Dominates(fr.evalBlock) && c.Block() != fr.fn.Blocks[0] || (c.Block() == fr.fn.Blocks[0] && len(cands) == 1) {
+				if found != nil {
+					return TV{}, false
+				}
+				found = c
+			}
 		}
 	}
 	if found == nil {
@@ -857,31 +863,7 @@ func (fr *frame) addrLocal(st *state, name string) (TV, bool) {
 func (fr *frame) localsAt(b *ssa.BasicBlock) map[string]TV {
 	vars := map[string]TV{}
 	u := fr.fc.e.u
-	cands := map[string]ssa.Value{}
-	multi := map[string]bool{}
-	for _, bb := range fr.fn.Blocks {
-		for _, in := range bb.Instrs {
-			if dr, ok := in.(*ssa.DebugRef); ok && !dr.IsAddr {
-				id, ok := dr.Expr.(*ast.Ident)
-				if !ok {
-					continue
-				}
-				if prev, ok := cands[id.Name]; ok && prev != dr.X {
-					multi[id.Name] = true
-				}
-				cands[id.Name] = dr.X
-			}
-		}
-	}
-	for n, v := range cands {
-		if multi[n] {
-			continue
-		}
-		if in, ok := v.(ssa.Instruction); ok {
-			if !in.Block().Dominates(b) {
-				continue
-			}
-		}
+	for n, v := range fr.namedAt(b, false) {
 		if t, ok := fr.regs[v]; ok {
 			vars[n] = TV{T: t, Sort: u.sortOf(v.Type()), Typ: v.Type()}
 		}
@@ -906,8 +888,56 @@ func (fr *frame) localsAt(b *ssa.BasicBlock) map[string]TV {
 	return vars
 }
 
+
+// namedAt: named locals visible at block b — for each name, the unique SSA value referred to under that
+// name whose definition dominates b (several same-named locals in different branches are told apart).
+func (fr *frame) namedAt(b *ssa.BasicBlock, strict bool) map[string]ssa.Value {
+	cands := map[string][]ssa.Value{}
+	for _, bb := range fr.fn.Blocks {
+		for _, in := range bb.Instrs {
+			if dr, ok := in.(*ssa.DebugRef); ok && !dr.IsAddr {
+				id, ok := dr.Expr.(*ast.Ident)
+				if !ok {
+					continue
+				}
+				dup := false
+				for _, c := range cands[id.Name] {
+					if c == dr.X {
+						dup = true
+					}
+				}
+				if !dup {
+					cands[id.Name] = append(cands[id.Name], dr.X)
+				}
+			}
+		}
+	}
+	out := map[string]ssa.Value{}
+	for n, vs := range cands {
+		var ok []ssa.Value
+		for _, v := range vs {
+			if in, isInstr := v.(ssa.Instruction); isInstr {
+				if !in.Block().Dominates(b) || (strict && in.Block() == b) {
+					continue
+				}
+			}
+			ok = append(ok, v)
+		}
+		if len(ok) == 1 && (len(vs) == 1 || isInstrValue(ok[0])) {
+			out[n] = ok[0]
+		}
+	}
+	return out
+}
+
+func isInstrValue(v ssa.Value) bool {
+	_, ok := v.(ssa.Instruction)
+	return ok
+}
+
 // enterLoop: assert invariants on entry edges, havoc, assume invariants.
 func (fr *frame) enterLoop(h *ssa.BasicBlock, li *loopInfo, cur *state) {
+	fr.evalBlock = h
 	fc := fr.fc
 	sc := fc.sc
 	u := fc.e.u
@@ -997,6 +1027,7 @@ func (fr *frame) enterLoop(h *ssa.BasicBlock, li *loopInfo, cur *state) {
 
 // backEdge: assert invariant preservation and variant decrease along edge p->h.
 func (fr *frame) backEdge(p *ssa.BasicBlock, h *ssa.BasicBlock, es *state) {
+	fr.evalBlock = p
 	li := fr.loops[h]
 	if li == nil {
 		return
@@ -1528,6 +1559,26 @@ func (fc *fnCtx) localKeys() map[string]bool {
 						fc.lkeys[u.arrKey(at.Elem())] = true
 					}
 				case *ssa.Call:
+					// slices / maps returned by calls may be fresh (a contract can say local(result))
+					if rt := v.Type(); rt != nil {
+						var rts []types.Type
+						if tup, ok := rt.(*types.Tuple); ok {
+							for i := 0; i < tup.Len(); i++ {
+								rts = append(rts, tup.At(i).Type())
+							}
+						} else {
+							rts = append(rts, rt)
+						}
+						for _, t := range rts {
+							switch tt := t.Underlying().(type) {
+							case *types.Slice:
+								fc.lkeys[u.arrKey(tt.Elem())] = true
+							case *types.Map:
+								md, mv, _, _ := fc.e.mapKeys(t)
+								fc.lkeys[md], fc.lkeys[mv] = true, true
+							}
+						}
+					}
 					if b, ok := v.Call.Value.(*ssa.Builtin); ok && b.Name() == "append" {
 						if st, ok := v.Type().Underlying().(*types.Slice); ok {
 							fc.lkeys[u.arrKey(st.Elem())] = true
